@@ -8,7 +8,8 @@
 (* derives what the property demands:                                      *)
 (*   std, url   -> decodes to the bytes, re-encodes to the standard        *)
 (*                 unpadded spelling;                                      *)
-(*   padded, mixed, badchar, short, noncanon -> "free": the property does  *)
+(*   padded, urlpadded, mixed, badchar, short, noncanon, newline, space     *)
+(*              -> "free": the property does                               *)
 (*                 not say (base64.go documents only the alphabet          *)
 (*                 detection), so nothing but "no crash" is demanded.      *)
 (* Uses the Encode / Decode operators of Ident.tla; the speller variables  *)
@@ -24,7 +25,7 @@ BytesLarge == BytesSmall \cup {1, 15, 190, 239, 248}
 Bytes == IF ByteAlphabet = "small" THEN BytesSmall ELSE BytesLarge
 Universe(k) == [1..k -> Bytes]
 
-Variants == {"std", "url", "mixed", "padded", "badchar", "short", "noncanon"}
+Variants == {"std", "url", "mixed", "padded", "urlpadded", "badchar", "short", "noncanon", "newline", "space"}
 
 VARIABLES b, variant, bphase, bout
 bvars == <<b, variant, bphase, bout, atoms, pos, n, dev, phase, padlen, out>>
@@ -38,6 +39,9 @@ Spelling(bs, v) ==
          [] v = "url" -> Encode(bs, UrlAlphabet)
          [] v = "mixed" -> [i \in 1..Len(x) |-> IF x[i] = 63 THEN "_" ELSE StdAlphabet[x[i] + 1]]
          [] v = "padded" -> std \o (IF Len(bs) % 3 = 1 THEN <<"=", "=">> ELSE <<"=">>)
+         [] v = "urlpadded" -> Encode(bs, UrlAlphabet) \o (IF Len(bs) % 3 = 1 THEN <<"=", "=">> ELSE <<"=">>)
+         [] v = "newline" -> <<std[1], "nl">> \o SubSeq(std, 2, Len(std))          \* white space inside the value
+         [] v = "space" -> <<std[1], "sp">> \o SubSeq(std, 2, Len(std))
          [] v = "badchar" -> std \o <<"!", "A", "A", "A">>
          [] v = "short" -> std \o (IF Len(std) % 4 = 0 THEN <<"A">> ELSE IF Len(std) % 4 = 2 THEN <<"A", "A", "A">> ELSE <<"A", "A">>)
          [] v = "noncanon" -> [i \in 1..Len(x) |-> IF i = Len(x) THEN StdAlphabet[x[i] + 2] ELSE std[i]]
@@ -48,6 +52,8 @@ Relevant(bs, v) ==
       [] v = "url" -> Has(x, 62) \/ Has(x, 63)                \* otherwise the two spellings coincide
       [] v = "mixed" -> Has(x, 62) /\ Has(x, 63)
       [] v \in {"padded", "noncanon"} -> Len(bs) % 3 # 0
+      [] v = "urlpadded" -> Len(bs) % 3 # 0 /\ (Has(x, 62) \/ Has(x, 63))
+      [] v \in {"newline", "space"} -> Len(bs) >= 1
       [] OTHER -> TRUE
 
 BInit == /\ \E k \in 0..MaxBytes : b \in Universe(k)
